@@ -84,7 +84,7 @@ def account(ctx, stats, job, o, m, backend, build, lam):
             ctx.report('wire-wrong', '%s/%s %d-bit set, %s netlist: after instruction %s the destination decrypts to %d, plaintext evaluation gives %d (phase %d, inputs at depth %d)' % (
                 backend, build, lam, name, (kind, d, a, b, c), 1 if ph > 0 else 0, nb, ph, din), {'case': line, 'instruction': [kind, d, a, b, c], 'backend': backend, 'build': build})
         if kind < 10 or kind == 13:
-            cat = ('noisy' if mode == 1 else 'fresh') if din == 0 else ('deep' if din >= 5 else 'mid')
+            cat = ('noisy' if mode == 1 else 'const' if mode == 2 else 'fresh') if din == 0 else ('deep' if din >= 5 else 'mid')
             for key in ((kind == 13, cat), (kind == 13, 'all')):
                 st = stats.setdefault(key, [0, 0.0, 0.0, 0]); e = err / T32
                 st[0] += 1; st[1] += e; st[2] += e * e; st[3] = max(st[3], abs(err))
@@ -131,6 +131,7 @@ def run(ctx):
                 for r in range(2 * mult): nets.append((fam_adder(rng, 8), rng.randrange(2)))
                 for r in range(2 * mult): nets.append((fam_muxtree(rng, 3), rng.randrange(2)))
                 for r in range(4 * mult): nets.append((fam_layer(rng, 60), r % 2))
+                for r in range(mult): nets.append((fam_layer(rng, 40), 2))          # gates on constants (mode 2): every key-switch digit is zero, the outputs are exact
                 jobs = []
                 for (name, nw, prog), mode in nets:
                     ins = [rng.randrange(2) for _ in range(nw)]
@@ -213,6 +214,13 @@ def judge(ctx, stats, lam, backend, build, final):
             elif T > theta:
                 undecided = True
                 if final: ctx.notes.append('%s: %s of %s outputs = %.6f is above its bound %.6f by less than 8 estimator standard deviations after the whole budget (n=%d): not decided, no alarm' % (tag, name, what, T, theta, n))
+        # gates whose inputs are all constants: the bootstrapped sample has an all-zero mask, no key-switching row is used; the mean bound applies to
+        # this class of inputs like to any other (the error is a constant of the key there, so one output decides)
+        if (ismux, 'const') in stats and stats[(ismux, 'const')][0] >= 5:
+            nc, mc, sc, mxc = mom(stats[(ismux, 'const')])
+            if abs(mc) > 0.25 * bound + 8 * sc / math.sqrt(nc):
+                ctx.report('noise-mean', '%s: |mean| of the phase error of %s outputs whose inputs are all constants is %.6f over %d outputs (stdev %.6f), bound %.6f' % (tag, what, abs(mc), nc, sc, 0.25 * bound),
+                           {'statistic': '|mean| (constant inputs)', 'value': abs(mc), 'bound': 0.25 * bound, 'n': nc, 'gate_class': what, 'param_set': lam, 'backend': backend, 'build': build})
         # same distribution whatever the input history
         cats = [c for c in ('fresh', 'deep', 'noisy') if (ismux, c) in stats and stats[(ismux, c)][0] >= 100]
         for i in range(len(cats)):
